@@ -31,7 +31,7 @@ fn main() {
         assumptions: vec![
             "single thread; statements of different transactions interleave at statement granularity (each tx_* call is one step)",
             "the table image is physical (uncommitted changes in place, as the anchored mechanism describes); what tx_select shows of another open transaction's changes is not checked",
-            "rows inserted by an open transaction carry no row lock in this engine: update/delete statements of other transactions (or non-transactional ones) that match such a row and no locked row are skipped and counted",
+            "a row inserted by an open transaction is locked by it like a row it updated: statements of others matching it must be refused with LockConflict",
             "non-transactional update/delete_rows run as an internal one-statement transaction (relational_engine/src/lib.rs:3897, :3985) and are therefore expected to be refused on rows locked by an open transaction",
             "row ids consumed by a rolled-back insert are not handed out again; only freshness of returned ids is required",
             "index DDL while a transaction has pending changes is generated in 8% of the programs only and reported under the separate signature family ddl-in-open-tx/...",
